@@ -11,7 +11,7 @@ import AmVerif.Proofs.Chunk
 
   A stored chunk (`Stored`) is an uncompressed chunk `plain ty data` (`ty` 0 document, 1 change,
   3 bundle; bytes `encodeChunk ty data`) or a compressed change `compressed data dec` whose stored
-  bytes `data` inflate to `dec` (`Inflate.inflate` is only used as a function).  `fileOf ss` is
+  bytes `data` inflate to `dec` (`Inflate.inflateExact` is only used as a function).  `fileOf ss` is
   the concatenation of the bytes of `ss`; `Stored.chunk s` is the chunk record the reader is to
   return for `s`.  Property theorems only; lemmas are in `AmVerif.Proofs.Chunk`.
 -/
@@ -83,7 +83,7 @@ theorem C12_loadFile_concat (bodyOk : Nat → Bytes → Bool) (s : Stored) (ss :
 
 /-- the hypotheses are satisfiable and the conclusion is about a real file: a document chunk, a
     change chunk and a compressed change (for any stored bytes that inflate) -/
-example (data dec : Bytes) (hd : data.length < 2 ^ 64) (hi : Inflate.inflate data = some dec) :
+example (data dec : Bytes) (hd : data.length < 2 ^ 64) (hi : Inflate.inflateExact data = some dec) :
     loadFile anyBody .error
       (encodeChunk 0 [7] ++ (encodeChunk 1 [8, 9] ++
         (encodeChunkWith ((chunkHash 1 dec).take 4) 2 data ++ []))) =
